@@ -97,8 +97,10 @@ func e3C03Config(rng *mrand.Rand, quick bool, i int) e3Config {
 		cfg.WantByz, cfg.Attack, cfg.AttackKind = true, true, 0
 	case 2:
 		cfg.WantByz, cfg.Rotate, cfg.Attack, cfg.AttackKind = true, true, true, 2
-	case 3, 4:
+	case 3:
 		cfg.WantByz, cfg.Attack, cfg.AttackKind = true, true, 3
+	case 4:
+		cfg.WantByz, cfg.Rotate, cfg.Attack, cfg.AttackKind = true, i%16 < 8, true, 5
 	case 0:
 		cfg.WantByz, cfg.Attack, cfg.AttackKind = true, true, 4
 	}
